@@ -25,14 +25,14 @@ theorem storeInlineOr_inline (t : Nat) (ht : t < 16) (inl out : List Nat) (st : 
     (h : inl.length ≤ 15) :
     ∃ i', storeInlineOr t inl out st = (i', st) ∧ getType i' = t ∧ idxValue i' = inl ∧
       isValue i' = true := by
-  obtain ⟨i', h1, h2, h3, h4⟩ := setValue_spec t ht inl h
+  obtain ⟨i', h1, h2, h3, h4, _⟩ := setValue_spec t ht inl h
   exact ⟨i', by simp [storeInlineOr, h1], h2, h3, h4⟩
 
 theorem storeInlineOr_out (t : Nat) (ht : t < 16) (inl out : List Nat) (st : Store)
     (h : inl.length > 15) (hw : st.Wf) (hn : st.next < U64) :
     ∃ i', storeInlineOr t inl out st = (i', (st.insert out).2) ∧ getType i' = t ∧
       isValue i' = false ∧ (st.insert out).2.get (idxIndex i') = .ok out := by
-  obtain ⟨h2, h3, h4⟩ := setIndex_spec t ht st.next hw.1 hn
+  obtain ⟨h2, h3, h4, _⟩ := setIndex_spec t ht st.next hw.1 hn
   refine ⟨setIndex (setType newIdx t) st.next, ?_, h2, h4, ?_⟩
   · simp [storeInlineOr, setValue_none _ _ h, Store.insert]
   · rw [h3]; exact Store.get_insert_self st out
@@ -41,7 +41,7 @@ theorem storeOut_spec (t : Nat) (ht : t < 16) (out : List Nat) (st : Store)
     (hw : st.Wf) (hn : st.next < U64) :
     ∃ i', storeOut t out st = (i', (st.insert out).2) ∧ getType i' = t ∧
       (st.insert out).2.get (idxIndex i') = .ok out := by
-  obtain ⟨h2, h3, _⟩ := setIndex_spec t ht st.next hw.1 hn
+  obtain ⟨h2, h3, _, _⟩ := setIndex_spec t ht st.next hw.1 hn
   refine ⟨setIndex (setType newIdx t) st.next, ?_, h2, ?_⟩
   · simp [storeOut, Store.insert]
   · rw [h3]; exact Store.get_insert_self st out
@@ -263,5 +263,81 @@ theorem store_load (v : Val) (st : Store) (hw : st.Wf) (hn : st.next < U64)
           U64_META, I64_META, BYTES_META, e3, wrap]
     | n + 9, hget, _ =>
       simp [SchemaListList.ofList, SchemaList.ofList, SchemaListList.get?] at hget
+
+/-- every stored index is exactly 16 bytes -/
+theorem setMeta_length (i : List Nat) (m : Nat) (h : 15 ≤ i.length) : (setMeta i m).length = 16 := by
+  simp [setMeta, List.length_take]; omega
+
+theorem setType_new_length (t : Nat) : (setType newIdx t).length = 16 :=
+  setMeta_length _ _ (by simp [newIdx])
+
+theorem setSize_length (i : List Nat) (s : Nat) (h : 15 ≤ i.length) : (setSize i s).length = 16 :=
+  setMeta_length _ _ h
+
+theorem storeInlineOr_length (t : Nat) (inl out : List Nat) (st : Store) :
+    (storeInlineOr t inl out st).1.length = 16 ∧ (storeInlineOr t inl out st).2.next ≤ st.next + 1 := by
+  have h16 := setType_new_length t
+  unfold storeInlineOr
+  simp only [setValue]
+  by_cases h : inl.length > 15
+  · simp only [if_pos h, Store.insert, setIndex]
+    simp [le8_length, setSize_length _ _ (by omega : 15 ≤ (setType newIdx t).length)]
+  · simp only [if_neg h]
+    simp [setSize_length _ _ (by omega : 15 ≤ (setType newIdx t).length)]; omega
+
+theorem storeOut_length (t : Nat) (out : List Nat) (st : Store) :
+    (storeOut t out st).1.length = 16 ∧ (storeOut t out st).2.next ≤ st.next + 1 := by
+  have h16 := setType_new_length t
+  simp [storeOut, Store.insert, setIndex, le8_length,
+    setSize_length _ _ (by omega : 15 ≤ (setType newIdx t).length)]
+
+theorem storeValue_length (v : Val) (st : Store) (i : List Nat)
+    (st' : Store) (h : storeValue v st = some (i, st')) : i.length = 16 ∧ st'.next ≤ st.next + 1 := by
+  unfold storeValue at h
+  split at h
+  all_goals (first
+    | (simp only [Option.some.injEq] at h
+       have hi := congrArg Prod.fst h
+       have hs := congrArg Prod.snd h
+       simp only at hi hs
+       rw [← hi, ← hs]
+       first | exact storeInlineOr_length _ _ _ st | exact storeOut_length _ _ st)
+    | (exfalso; simp at h))
+
+/-- a value that loads from `st` still loads after any further `store_db_value` -/
+theorem loadValue_stable (m : Mode) (i : List Nat) (st : Store) (hw : st.Wf) (v w : Val)
+    (j : List Nat) (st' : Store) (hl : loadValue m i st = .ok v)
+    (hs : storeValue w st = some (j, st')) : loadValue m i st' = .ok v := by
+  rcases (storeValue_wf w st hw j st' hs).2 with rfl | ⟨bs, rfl⟩
+  · exact hl
+  · exact loadValue_insert m i st hw bs v hl
+
+theorem store_load_kv (k v : Val) (st : Store) (hw : st.Wf) (hn : st.next + 1 < U64)
+    (hk : WT dbValueSchema k) (hv : WT dbValueSchema v)
+    (hsk : (ser k).length < U64) (hsv : (ser v).length < U64)
+    (bytes : List Nat) (st2 : Store) (h : storeKV k v st = some (bytes, st2)) :
+    loadKV .fixed bytes st2 = .ok (k, v) := by
+  unfold storeKV at h
+  split at h
+  · rename_i ki st1 hk1
+    split at h
+    · rename_i vi st2' hv1
+      simp at h; obtain ⟨rfl, rfl⟩ := h
+      have ⟨lk, nk⟩ := storeValue_length k st ki st1 hk1
+      have hw1 := (storeValue_wf k st hw ki st1 hk1).1
+      have ⟨lv, _⟩ := storeValue_length v st1 vi st2' hv1
+      have e1 := store_load k st hw (by omega) hk hsk ki st1 hk1
+      have e1' := loadValue_stable .fixed ki st1 hw1 k v vi st2' e1 hv1
+      have e2 := store_load v st1 hw1 (by omega) hv hsv vi st2' hv1
+      unfold loadKV
+      have t1 : (ki ++ vi).take 16 = ki := by simp [← lk]
+      have d : (ki ++ vi).drop 16 = vi := by rw [← lk]; simp
+      have t2 : ((ki ++ vi).drop 16).take 16 = vi := by
+        rw [d]; exact List.take_of_length_le (by omega)
+      rw [if_neg (by simp [lk]), if_neg (by simp [lk, lv])]
+      rw [t1, t2, e1', e2]
+      simp
+    · simp at h
+  · simp at h
 
 end AgdbCodec
